@@ -69,6 +69,12 @@ class Prop(core.Prop):
                             if src == 'built-fillvalue' and (cs not in (0, 15) or mk in ('none', 'near')):
                                 continue
                             yield dict(group, miss=mi, mask=mk, comments=cs, indep_units=iu, source=src)
+        # a dependent variable created before the independent one; headers of 99, 100 and 101+ lines
+        for mk in MASKS:
+            for cs in (0, 15):
+                yield dict(group, miss=0, mask=mk, comments=cs, indep_units=True, source='built-depfirst')
+        for extra in (82, 83, 84, 120):
+            yield dict(group, miss=0, mask='one', comments=0, indep_units=True, source='built', extra=extra)
 
     def table(self, case):
         nrec, ndep = case['nrec'], case['ndep']
@@ -117,16 +123,26 @@ class Prop(core.Prop):
         f.INDEPENDENT_VARIABLE = 'Start_UTC'
         for k, v in comments:
             setattr(f, k, v)
-        tv = f.createVariable('Start_UTC', 'd', ('POINTS',), missing_value=miss,
-                              units='seconds' if case['indep_units'] else 'Start_UTC')
-        tv[:] = time
+        for i in range(case.get('extra', 0)):
+            setattr(f, 'COMMENT_%03d' % i, 'note number %d' % i)
+
+        def indep():
+            tv = f.createVariable('Start_UTC', 'd', ('POINTS',), missing_value=miss,
+                                  units='seconds' if case['indep_units'] else 'Start_UTC')
+            tv[:] = time
+        if case['source'] != 'built-depfirst':
+            indep()
         for j in range(ndep):
+            if j == 1 and case['source'] == 'built-depfirst':
+                indep()
             if case['source'] == 'built-fillvalue':
                 # masked variable that carries its missing code only as the fill value
                 v = f.createVariable(NAMES[j], 'd', ('POINTS',), fill_value=miss, units=UNITS[j])
             else:
                 v = f.createVariable(NAMES[j], 'd', ('POINTS',), missing_value=miss, units=UNITS[j])
             v[:] = np.ma.MaskedArray(t[:, j], mask=m[:, j])
+        if case['source'] == 'built-depfirst' and ndep == 1:
+            indep()
         return f
 
     def compare(self, g, t, m, miss, ndep, sig, scope, tag):
